@@ -14,8 +14,9 @@ THEOREMS = ["C20_low", "C20_low2", "C20_high", "C20_long_pointer", "C20_base_rel
             # script/pointers.py, the users of the formulas (Properties/C20Pointers.v)
             "C20_pointers_partition", "C20_pointers_single", "C20_pointers_values", "C20_pointers_addresses",
             "C20_pointers_addresses_roundtrip", "C20_pointers_base_relative_roundtrip", "C20_pointers_dump_roundtrip",
-            "C20_pointers_append", "C20_pointers_recode", "C20_pointers_recode_roundtrip"]
-PROOF_HEADER = "From A816 Require Import Properties.C20 Properties.C20Pointers."
+            "C20_pointers_append", "C20_pointers_recode", "C20_pointers_recode_roundtrip",
+            "C20_oracle_corr_implies_spec", "C20_oracle_corr_implies_spec_nobus", "C20_oracle_model_passes", "C20_oracle_cbus_live", "C20_oracle_cbus_needed"]
+PROOF_HEADER = "From A816 Require Import Properties.C20Oracle Properties.C20 Properties.C20Pointers."
 # model-tie modules whose correspondence is part of this property's check
 TIES = ['PTRS']
 RULE = ("rom_to_snes / snes_to_rom / their round trip at every bank boundary +-{0,1,0x7FFF,0x8000} in the three modes, "
